@@ -45,6 +45,18 @@ CHECKS = {
     design_ref="DESIGN.md section 5 C17",
     note="Trusted: Coq kernel + VM; ir2coq serialiser (fail-closed); decision-fragment model tied by direct driving of _get_type_arg_variance under scripted choices; gen_type_params' draws are modelled, not driven.",
     technique="Coq proofs of the switch logic for all draws + kernel-checked per-program certificates through a proved checker"),
+ "C09": dict(
+    category="translation_validation",
+    text="The searches (find_subtypes, find_irrelevant_type and their helpers: ~250 lines of randomised construction over instantiate_type_constructor) are NOT modelled. What Coq carries is the declarative relation SubA with the executable checker sub_ref proved sound for both answers (C06), and theorems saying what an accepting verdict of the validator establishes (Properties_C09.v: accepted_result_is_a_declarative_subtype, accepted_concrete_result_is_usable, accepted_self_inclusion, accepted_irrelevant_type_is_unrelated). Every result returned on this run is validated: for each type returned by find_subtypes the kernel checks a SubA derivation (Theorem r_i_j : SubA w [] r t, by sub_ref_yes_sound + vm_compute), usability and self-inclusion are decided by the proved checker, and for each irrelevant type the kernel checks the refutation of both directions. PARTIAL: all random choices / all class tables are sampled (synthetic tables with well-bounded query types); a rejected result is a violation with the query as replay.",
+    design_ref="DESIGN.md section 5 C09",
+    note="Trusted: Coq kernel + VM; reification of Python type objects (tymodel.py); the bottom type and ill-bounded / primitive-argument query types are outside the explored domain; exceptions of the searches are counted, not judged (C18's subject).",
+    technique="per-result kernel-checked derivations through a proved-sound reference checker (translation validation); searches not modelled"),
+ "C08": dict(
+    category="translation_validation",
+    text="Proved for every random draw (Properties_C08.v, shared with C17): _get_type_arg_variance yields a projection only where variance_choices, the declared variance and both switches allow it, and never when another parameter's bound mentions the parameter. The assignment computation itself (_compute_type_variable_assignments, update_type_var_bound_rec, instantiate_*; ~200 lines of randomised search) is NOT modelled; every call explored on this run is validated: exactly one argument per parameter, no primitive or bare constructor, consistent pre-assignments kept (at most wrapped), projections only where allowed (structural checks in the harness), and for every bounded parameter the kernel proves SubA (upper bound of the argument) (declared bound with the other arguments substituted) through the proved-sound reference checker. PARTIAL: declarations, pools, pre-assignments, variance-choice maps and random choices are sampled.",
+    design_ref="DESIGN.md section 5 C08",
+    note="Trusted: Coq kernel + VM; reification; the substituted bound is computed with the implementation's substitute_type (itself covered by C07); structural checks are harness code.",
+    technique="Coq proof of the variance-choice logic + per-call kernel-checked bound derivations (translation validation)"),
 }
 
 NOT_APPLICABLE = {
@@ -52,7 +64,7 @@ NOT_APPLICABLE = {
  "C13": "The property is about CPython's pickle applied to ~40 IR classes; a Coq model would be a model of pickle and the only tie to the code would be the round-trip test itself (DESIGN.md section 6).",
 }
 
-PENDING = ["C01","C03","C04","C05","C08","C09","C10","C11","C12","C18"]
+PENDING = ["C01","C03","C04","C05","C10","C11","C12","C18"]
 
 def main():
     checks = []
